@@ -307,7 +307,8 @@ class ExprGen:
             return self.field("text")
         if c < 0.6:
             return self.ch(["name(r)", "str(r.p)", "str(r.ip)", "r.u.filename", "r.u.scheme", "r.u.hostname", "r.sub.ss", "r.p.name", "r.u",
-                            "r._source", "r.dg.md5", "str(%s)" % self.field("int"), "r._desc.name", "r.p.suffix"])
+                            "r._source", "r.dg.md5", "str(%s)" % self.field("int"), "r._desc.name", "r.p.suffix", "repr(r.s)",
+                            "repr(%s)" % self.field("int")])
         return _lit(self.ch(self.info["texts"]))
 
     def text(self, d, env):
@@ -514,11 +515,14 @@ class ExprGen:
                             "r.f == r.f", "r.f > 1", "(r.n, r.s) == (1, 'Hello')", "[r.n, r.m] == [1, 2]", "r.l == ['Hello']", "r.dg.md5 == '%s'" % MD5S[0],
                             "r.fs > 1000", "r.mode & 73 == 73", "r.port in (22, 80)", "'a' in r.dl", "r.l != []", "(r.n > 1) == True",
                             "(not r.n) == False", "(r.s == 'x') != (r.t == 'x')", "r.pl == []", "r.ips != None"])
-        if c < 0.89 and self.may_here():
+        if c < 0.93 and self.want_may and self.p(0.7):
+            self.tags.add("may-reject")
             return self.ch(["string('x') == %s" % self.text_leaf(env), "varint(1) == %s" % self.int_leaf(env), "r.s.startswith('H')",
                             "len(r.l) == 2", "{1: 2} == {1: 2}", "names(r) == {'sel/main'}", "(lambda: 1)() == 1", "isinstance(r.n, int)",
                             "r.l[0] == 'Hello'", "r.nl[-1] > 1", "sorted(r.nl) == r.nl", "uint16(1) == r.u16",
-                            "net.ipv4.Subnet('10.0.0.0/8') != None", "bool(r.n)", "r.n.real == r.n", "str.upper(r.s) == 'HELLO'"])
+                            "net.ipv4.Subnet('10.0.0.0/8') != None", "bool(r.n)", "r.n.real == r.n", "str.upper(r.s) == 'HELLO'",
+                            "{'a': r.n} != {}", "(lambda x: x)(r.n) == r.n", "wstring('Hello') == r.w", "{r.n, 1} == {1}", "[x for x in r.nl] == r.nl",
+                            "[x + 1 for x in r.nl if x] != []", "r.s[1:] == 'ello'", "f'{r.n}' == str(r.n)", "(r.n if r.b else r.m) == r.n"])
         if "@gen" in env:
             if "nested-generator" in self.avoid:
                 return self.cmp_chain(self.int if self.p(0.5) else self.text, min(d, 1), env)
